@@ -289,6 +289,12 @@ type script struct {
 	CliCW   bool // the client connection handed to the proxy has a CloseWrite method
 	Fin     int  // 0: EOF in a Read of its own; 1: the last bytes come with io.EOF; 9: with another error
 	HeadLen int  // bulk: the first HeadLen bytes of Stream are the literal head (ClientHello)
+	// websocket, directed early-bytes classes (wsearly.go): the upgrade request as the client sends it (nil: wsReq),
+	// cut after ReqSplit bytes into two segments (0: one piece); such a script goes to Coq as a CWsEarly case
+	Req       []byte
+	ReqSplit  int
+	EarlyCase bool
+	NoWait101 bool // the client sends everything with / right after its request and half-closes without waiting for the 101
 }
 
 const wsReq = "GET /ws HTTP/1.1\r\nHost: front.example\r\nConnection: Upgrade\r\nUpgrade: websocket\r\nSec-WebSocket-Key: dGhlIHNhbXBsZSBub25jZQ==\r\nSec-WebSocket-Version: 13\r\n\r\n"
@@ -491,6 +497,14 @@ func runOnce(s *script) observation {
 	skip := 0
 	if s.Kind == kWS {
 		req := []byte(wsReq)
+		if s.Req != nil {
+			req = append([]byte(nil), s.Req...)
+		}
+		if s.ReqSplit > 0 && s.ReqSplit < len(req) {
+			// the request itself arrives in two segments
+			steps = append(steps, cstep{data: append([]byte(nil), req[:s.ReqSplit]...)})
+			req = req[s.ReqSplit:]
+		}
 		if s.WSEarly && len(segs) > 0 {
 			// the client does not wait for the 101: its first bytes share the request's segment ...
 			req = append(req, segs[0]...)
@@ -504,7 +518,9 @@ func runOnce(s *script) observation {
 			}
 			skip++
 		}
-		steps = append(steps, cstep{wait: s.WSHead})
+		if !s.NoWait101 {
+			steps = append(steps, cstep{wait: s.WSHead})
+		}
 	}
 	for i, seg := range segs {
 		if i < skip {
@@ -1501,6 +1517,10 @@ func main() {
 		add(s, class)
 	}
 
+	// 3c. websocket: the client sends the start of its stream together with its upgrade request
+	// (a rand source of its own: the inputs of the classes above do not depend on it)
+	scripts = append(scripts, wsEarlyScripts(run)...)
+
 	// run them (a few at a time; every connection has its own upstream listener)
 	type result struct {
 		o    observation
@@ -1531,7 +1551,12 @@ func main() {
 			"stream_len": len(s.Stream), "segments": len(s.Segs), "first_segment": firstSeg(s), "client_conn_has_CloseWrite": s.CliCW, "client_saw_eof": o.ClEOF, "listener_read_timeout": s.RT.String(), "listener_write_timeout": s.WT.String(), "tls_upstream": s.TLSUp, "first_segment_with_upgrade_request": s.WSEarly, "segments_before_101": s.WSBefore, "segments_after_barrier": s.Barrier, "ended_by_itself": o.Ended, "cwait": s.CWait, "cend": cendCoq[s.CEnd], "last_read_err": []string{"separate EOF", "EOF with data", "", "", "", "", "", "", "", "error with data"}[s.Fin],
 			"utrig": []string{"at-connect", "after-bytes " + strconv.Itoa(s.UN), "on-eof"}[s.UTrig], "reply_len": len(s.Reply), "rseg1": s.RSeg1, "uend": uendCoq[s.UEnd],
 			"upstream_got": len(o.Up), "client_got": len(o.Cl), "connected": o.Conn, "runs": results[i].runs}
-		id := run.Add(s.Class, coqScript(s, o), sample)
+		term := coqScript(s, o)
+		if s.EarlyCase {
+			term = coqWsEarly(s, o)
+			sample["request_len"], sample["request_split"] = len(s.Req), s.ReqSplit
+		}
+		id := run.Add(s.Class, term, sample)
 		if o.Panicked {
 			run.Violation(id, "C09 panic inside the tunnel code ("+kindName[s.Kind]+")", sample)
 		}
